@@ -451,3 +451,33 @@ def partitionOp (j : Json) : Json :=
   | none => jErr "partition"
 
 end Tangelo.Driver
+
+namespace Tangelo.Driver
+open Tangelo.Codec Lean Tangelo.Decomp
+
+/-- {"op":"link","a":[x,y,z],"b":[..],"f":"p/q"} (rationals as strings) → {"p":[..]} -/
+def linkOp (j : Json) : Json :=
+  let vec : Json → Option (Rat × Rat × Rat) := fun v => match v with
+    | .arr #[x, y, z] => match ratOfJson? x, ratOfJson? y, ratOfJson? z with
+      | some a, some b, some c => some (a, b, c)
+      | _, _, _ => none
+    | _ => none
+  match vec (j.getObjValD "a"), vec (j.getObjValD "b"), ratOfJson? (j.getObjValD "f") with
+  | some a, some b, some f =>
+    let p := place a b f
+    let s : Rat → Json := fun r => Json.str (if r.den == 1 then toString r.num else s!"{r.num}/{r.den}")
+    Json.mkObj [("p", Json.arr #[s p.1, s p.2.1, s p.2.2])]
+  | _, _, _ => jErr "link"
+
+/-- {"op":"dmet_reorder","frags":[[..],..]} → {"flat":[..],"sizes":[..]} -/
+def dmetReorderOp (j : Json) : Json :=
+  match j.getObjValD "frags" with
+  | .arr fs =>
+    match fs.toList.mapM getNatList? with
+    | some frags =>
+      let (flat, sizes) := reorder frags
+      Json.mkObj [("flat", Json.arr (flat.map natJ).toArray), ("sizes", Json.arr (sizes.map natJ).toArray)]
+    | none => jErr "dmet_reorder"
+  | _ => jErr "dmet_reorder"
+
+end Tangelo.Driver
